@@ -244,7 +244,7 @@ func checkStep(op Op, class int, pre, post *View) []violation {
 			continue
 		}
 		justified := false
-		for _, objs := range [][]objView{pre.Sets, pre.Batches} {
+		for _, objs := range [][]objView{pre.Sets, pre.Batches, pre.Calls} {
 			for _, x := range objs {
 				if r0.Start <= x.H && !hasInt(x.Conf, r0.E) && pre.Height-x.H >= pre.Window {
 					justified = true
@@ -252,7 +252,7 @@ func checkStep(op Op, class int, pre, post *View) []violation {
 			}
 		}
 		if !justified {
-			fail("C13:slash:unjustified", "oracle %d (start %d, external %d) penalised at height %d although it confirmed every oracle set / batch created since it joined that is older than the window %d",
+			fail("C13:slash:unjustified", "oracle %d (start %d, external %d) penalised at height %d although it confirmed every oracle set / batch / bridge call created since it joined that is older than the window %d",
 				r0.A, r0.Start, r0.E, pre.Height, pre.Window)
 		}
 	}
